@@ -161,6 +161,34 @@ def conform(traces, devs, workers=8, heap_mb=2048, timeout=1800):
     return out, res
 
 
+_PAIR = re.compile(r'^"<<\\"PAIR\\", (\d+), (TRUE|FALSE), (\{.*\})>>"\s*$', re.M)
+_PFAIL = re.compile(r'<<\\"([^"\\]*)\\", (\d+)>>')
+
+
+def judge_pairs(pairs, workers=8, heap_mb=2048, timeout=1800):
+    "pairs: list of dicts with id, rel, a, b, map, obs, unit.  Returns (id -> (vacuous, [(clause, k)]), tlcres)"
+    if not pairs:
+        return {}, dict(states=0, distinct=0, wall=0.0, out='')
+    tmp = tempfile.mkdtemp(prefix='vtr-')
+    try:
+        path = os.path.join(tmp, 'pairs.ndjson')
+        with open(path, 'w') as f:
+            for t in pairs:
+                f.write(json.dumps(t, separators=(',', ':')) + '\n')
+        nw = max(1, min(workers, len(pairs)))
+        cfg = 'INIT Init\nNEXT Next\nINVARIANT Judged\nCONSTANTS\n  NW = %d\n' % nw
+        res = tlc('TracePairs', cfg, env={'TRACE_FILE': path}, workers=nw, heap_mb=heap_mb, timeout=timeout)
+    finally:
+        shutil.rmtree(tmp, ignore_errors=True)
+    out = {}
+    for m in _PAIR.finditer(res['out']):
+        out[int(m.group(1))] = (m.group(2) == 'TRUE', [(a, int(b)) for a, b in _PFAIL.findall(m.group(3))])
+    ids = set(t['id'] for t in pairs)
+    if set(out) != ids:
+        raise Machinery('TLC judged %d of %d pairs:\n%s' % (len(out), len(ids), res['out'][-3000:]))
+    return out, res
+
+
 # ----------------------------------------------------------------------------------------
 def load_known():
     p = os.path.join(VERIF, 'known_findings.json')
